@@ -22,6 +22,20 @@ CHECKS = {
          "Generated save/send sequences compared with the reference model's visible-balance rule for every later statement."),
  "C09": ("4.C09", "metamorphic relation between whole-script and split executions of the real interpreter (rapid)",
          "Generated scripts, every split point: run(whole) = run(first) ++ run(rest on updated balances), metadata second-over-first."),
+ "C10": ("4.C10", "differential execution across store behaviours + requested-balance monitor (rapid)",
+         "Generated scripts (with balance()/overdraft()/meta() origins) executed against exact / sparse / superset / static stores: results must be identical; no request names world; every balance the reference execution consults was requested."),
+ "C11": ("4.C11", "repetition, input-snapshot comparison and concurrent runs under the race detector over generated scripts (rapid, -race build)",
+         "Generated scripts run repeatedly and from many goroutines on one ParseResult with stores that hand out their own maps; inputs compared before/after; binary built with -race, any race report is a violation; flag sets compared."),
+ "C12": ("4.C12", "generated arbitrary inputs with crash/atomicity oracle + single-fault injection with expected error class + exhaustive store-fault enumeration per script",
+         "Three generated searches: arbitrary scripts x arbitrary variable texts (no panic, error xor result on both entry points, typed error); single-fault scripts (expected class or success); a store failure injected at every call index of every generated script (fault_enumeration inside an exploration)."),
+ "C13": ("4.C13", "exhaustive enumeration of short portion texts + generated long numerals against independent base-ten arithmetic; generated round trips through metadata",
+         "Complete enumeration of the portion-literal grammar for short digit strings (literal and variable), generated long numerals, and generated round trips of values of the six types through account/transaction metadata (fixed point + operational equality)."),
+ "C14": ("4.C14", "mutation-based generation of texts + exhaustive prefixes against an independent reference recogniser and a crash oracle",
+         "Every byte prefix of the corpus scripts plus generated mutations of corpus / grammar-complete scripts; oracle: no panic, reference recogniser (independent lexer + recursive-descent parser) agrees on valid/invalid, error positions inside the text."),
+ "C15": ("4.C15", "round trip generator-tree -> layout printer -> real parser -> tree comparison incl. ranges (rapid)",
+         "Grammar-complete generated trees printed under canonical and random layouts (comments, CRLF, non-ASCII) and compared node by node, values and ranges, with the tree the real parser builds."),
+ "C18": ("4.C18", "mutation-based generation of texts x every cursor position with crash, range-validity and determinism oracles",
+         "Typing sequences of the corpus scripts plus generated mutations, analysed twice and queried for hover / definition at every position."),
 }
 
 def main():
